@@ -206,24 +206,13 @@ impl<T: BitRead> PackedRead for T {
         lower_bound: Option<u64>,
         upper_bound: Option<u64>,
     ) -> Result<u64, Error> {
-        let lower_bound_unwrapped = const_unwrap_or!(lower_bound, 0);
         let upper_bound_unwrapped = const_unwrap_or!(upper_bound, i64::MAX as u64);
 
-        if (const_is_some!(lower_bound) || const_is_some!(upper_bound))
-            && upper_bound_unwrapped >= LENGTH_64K
-        {
-            // 11.9.4.2
-            if lower_bound == upper_bound {
-                Ok(lower_bound_unwrapped)
-            } else {
-                Ok(lower_bound_unwrapped
-                    + self.read_non_negative_binary_integer(lower_bound, upper_bound)?)
-            }
-        } else if const_is_some!(upper_bound) && upper_bound_unwrapped <= LENGTH_64K {
-            // 11.9.4.1 -> 11.9.3.4 -> 11.6.1
+        if const_is_some!(upper_bound) && upper_bound_unwrapped < LENGTH_64K {
+            // 11.9.4.1 -> 11.9.3.3: constrained whole number
             self.read_non_negative_binary_integer(lower_bound, upper_bound)
         } else {
-            // 11.9.4.1 -> 11.9.3.5
+            // 11.9.4.2 -> 11.9.3.5: upper bound of 64K or more, or unset; lower bound is not used
             if !self.read_bit()? {
                 // 11.9.3.6: less than or equal to 127
                 self.read_non_negative_binary_integer(None, Some(LENGTH_127))
@@ -568,33 +557,19 @@ impl<T: BitWrite> PackedWrite for T {
         let lower_bound_unwrapped = const_unwrap_or!(lower_bound, 0);
         let upper_bound_unwrapped = const_unwrap_or!(upper_bound, i64::MAX as u64);
 
-        if (const_is_some!(lower_bound) || const_is_some!(upper_bound))
-            && upper_bound_unwrapped >= LENGTH_64K
-        {
-            // 11.9.4.2
-            if lower_bound == upper_bound {
-                Ok(None)
-            } else if value < lower_bound_unwrapped {
-                Err(ErrorKind::ValueNotInRange(
-                    value as i64,
-                    lower_bound_unwrapped as i64,
-                    upper_bound_unwrapped as i64,
-                )
-                .into())
-            } else {
-                self.write_non_negative_binary_integer(
-                    lower_bound,
-                    upper_bound,
-                    value - lower_bound_unwrapped,
-                )?;
-                Ok(None)
-            }
-        } else if const_is_some!(upper_bound) && upper_bound_unwrapped <= LENGTH_64K {
-            // 11.9.4.1 -> 11.9.3.4 -> 11.6.1
+        if value < lower_bound_unwrapped || value > upper_bound_unwrapped {
+            Err(ErrorKind::ValueNotInRange(
+                value as i64,
+                lower_bound_unwrapped as i64,
+                upper_bound_unwrapped as i64,
+            )
+            .into())
+        } else if const_is_some!(upper_bound) && upper_bound_unwrapped < LENGTH_64K {
+            // 11.9.4.1 -> 11.9.3.3: constrained whole number
             self.write_non_negative_binary_integer(lower_bound, upper_bound, value)?;
             Ok(None)
         } else {
-            // 11.9.4.1 -> 11.9.3.5
+            // 11.9.4.2 -> 11.9.3.5: upper bound of 64K or more, or unset; lower bound is not used
             if value <= LENGTH_127 {
                 // 11.9.3.6: less than or equal to 127
                 self.write_bit(false)?;
@@ -610,7 +585,7 @@ impl<T: BitWrite> PackedWrite for T {
                 // 11.9.3.8: chunks of 16k multiples
                 self.write_bit(true)?;
                 self.write_bit(true)?;
-                let multiple = ((value / LENGTH_16K) as u8).min(MAX_FRAGMENTS);
+                let multiple = (value / LENGTH_16K).min(u64::from(MAX_FRAGMENTS)) as u8;
                 self.write_bits_with_offset(&[multiple], 2)?;
                 Ok(Some(u64::from(multiple) * LENGTH_16K))
             }
